@@ -274,8 +274,8 @@ def _rand_rxn(rng, order, subst):
     return {'reac': reac, 'prod': prod}
 
 
-def _rand_system(rng, tier):
-    ns = rng.randint(2, 4)
+def _rand_system(rng, tier, spectator=False):
+    ns = rng.randint(2, 3 if spectator else 4)
     subst = SUBST[:ns]
     nr = rng.randint(1, 4 if tier == 'quick' else 6)
     rxns = [_rand_rxn(rng, rng.choice([0, 1, 1, 2, 2, 3]), subst) for _ in range(nr)]
@@ -285,6 +285,10 @@ def _rand_system(rng, tier):
         if not touching or all(sum(r['reac'].values()) == 0 for r in touching):
             other = rng.choice([x for x in subst if x != s])
             rxns.append({'reac': {s: 1}, 'prod': {other: 1}})
+    if spectator:       # a substance of the system that takes part in no reaction: get_odesys must refuse (ValueError)
+        subst = subst + [SUBST[len(subst)]]
+        if rng.random() < 0.5:
+            rng.shuffle(subst)
     return subst, rxns
 
 
@@ -302,6 +306,19 @@ def _config(rng, subst, rxns, phys_k, phys_c):
         cs[s] = {'mag': str(phys_c[s] / f), 'u': ul}
     tu = rng.choice(TIME_UNITS)
     return {'reg': reg, 'ks': ks, 'c0': cs, 't': {'mag': _rand_mag(rng), 'u': [[tu, 1]]}}
+
+
+def _eq_quirk_class(c):
+    """EXPLICIT predicate (on the case description only) for the one class in which the exact model and the real
+    `Equilibrium.check_consistent_units` may legitimately differ: the constant is a Quantity whose exponent vector and EXACT
+    scale factor equal those of molar^delta, but whose unit is not written purely in `molar` — the real code compares the
+    float64 products of the factors with ==, which may or may not come out equal (mol/dm3: 999.9999999999998)."""
+    p = c['param']
+    if 'u' not in p:
+        return False
+    e = sum(c['prod'].values()) - sum(c['reac'].values())
+    f, d = _book_u(p['u'])
+    return d == tuple(e * x for x in CONC) and f == F(1000) ** e and any(n != 'molar' for n, _ in p['u'])
 
 
 def _nice(rng):
@@ -336,7 +353,22 @@ class C10(Property):
                    'pyodesys / sympy (construction of the symbolic system, lambdify) are third party: exercised, not modelled; '
                    'a zero-order reaction whose product has no other reaction makes pyodesys fail (constant derivative) and is avoided',
                    'a Quantity wrapping an Expr as rate constant, nested Expr arguments and UncertainQuantity are outside the model')
-    anchors = [('chempy/chemistry.py', 'Reaction.check_consistent_units'), ('chempy/chemistry.py', 'Equilibrium.check_consistent_units'),
+    clauses_without_theorem = (
+        'registry independence for Arrhenius / Eyring / Radiolytic rate EXPRESSIONS (only their args_dimensionality dictionaries have a '
+        'theorem; nested Expr arguments of dedimensionalisation are outside the model): oracle only (kind ode_expr: Arrhenius and Eyring, '
+        'orders 1-3, two registries / unit choices vs the hand formula); Radiolytic is not sampled',
+        'odesys.integrate with quantities in and out: only the three to_arrays callbacks composed with the post-processor have a theorem; '
+        'integration itself is third party (unit_aware_solve over a very short time is sampled in the validate cases)',
+        'the ⇐ direction of the equilibrium unit check on the REAL code (float64 factor equality): equilibrium_exact_model_unit_check_quirk is '
+        'about the exact model; real refusals inside the explicit float-factor class are counted in input_distribution',
+        "extra['p_units'] for include_params=True with named parameter keys (temperature, doserate_*): correspondence (ode_units, derived_fallback) only",
+        'that the symbolic system built by pyodesys/sympy evaluates to the shared kinetics model (Kinetics.sysRates, C03/C04): correspondence only',
+        'rejection of a wrongly-dimensioned constant at get_odesys time when the Reaction was built with checks=(): not required by the property '
+        '("accepted system"); notes/C10.md finding 5',
+        'Equilibrium.as_reactions with param=(kf, kb) tuples: oracle only (the model covers kf-given / kb-given / none / both)',
+    )
+    anchors = [('chempy/chemistry.py', 'Equilibrium.as_reactions'), ('chempy/chemistry.py', 'Reaction.copy'), ('chempy/chemistry.py', 'Reaction.__init__'),
+               ('chempy/chemistry.py', 'Reaction.check_consistent_units'), ('chempy/chemistry.py', 'Equilibrium.check_consistent_units'),
                ('chempy/chemistry.py', 'Reaction.order'), ('chempy/chemistry.py', 'Reaction.rate_expr'),
                ('chempy/util/_expr.py', 'Expr.dedimensionalisation'),
                ('chempy/kinetics/rates.py', 'MassAction.active_conc_prod'), ('chempy/kinetics/rates.py', 'MassAction.__call__'),
@@ -364,9 +396,13 @@ class C10(Property):
             for order in range(0, 6):
                 cases.append({'kind': 'args_dims', 'cls': cls, 'nargs': nargs, 'reac': _rand_reac(rng, order)})
         for _ in range(share(0.16)):
-            cases.append(self._ode_case(rng, tier, named=False))
+            cases.append(self._ode_case(rng, tier, named=False, spectator=rng.random() < 0.12))
         for _ in range(share(0.12)):
-            cases.append(self._ode_case(rng, tier, named=True))
+            cases.append(self._ode_case(rng, tier, named=True, spectator=rng.random() < 0.12))
+        for _ in range(share(0.10)):
+            cases.append(self._as_reactions_case(rng))
+        for _ in range(share(0.04)):
+            cases.append(self._expr_case(rng))
         for _ in range(share(0.05)):
             c = self._ode_case(rng, tier, named=True)
             c['kind'] = 'ode_named_wrong'
@@ -434,10 +470,11 @@ class C10(Property):
             ul = [['molar', e]] if e else []
             if e and rng.random() < 0.5:
                 ul = [['molar', 1 if e > 0 else -1] for _ in range(abs(e))]
-        elif r < 0.75:    # right dimension, any concentration units
+        elif r < 0.75:    # right dimension, any concentration units (mol/dm3 = molar exactly, but not in float64)
             ul = []
             for _ in range(abs(e)):
-                for name, x in _conc_units(rng):
+                cu_ = [['mol', 1], ['dm', -3]] if rng.random() < 0.35 else _conc_units(rng)
+                for name, x in cu_:
                     ul.append([name, x * (1 if e > 0 else -1)])
         else:             # wrong dimension
             e2 = e + rng.choice([-1, 1, 2])
@@ -448,13 +485,78 @@ class C10(Property):
         param = {'num': _rand_mag(rng)} if kind == 'num' else {'mag': _rand_mag(rng), 'u': ul}
         return {'kind': 'equilibrium', 'reac': reac, 'prod': prod, 'param': param}
 
-    def _ode_case(self, rng, tier, named):
-        subst, rxns = _rand_system(rng, tier)
+    def _ode_case(self, rng, tier, named, spectator=False):
+        subst, rxns = _rand_system(rng, tier, spectator)
         phys_k = [_nice(rng) for _ in rxns]
         phys_c = {s: _nice(rng) for s in subst}
-        return {'kind': 'ode_named' if named else 'ode', 'subst': subst, 'rxns': rxns,
+        return {'kind': 'ode_named' if named else 'ode', 'spectator': spectator, 'subst': subst, 'rxns': rxns,
                 'phys_k': [str(k) for k in phys_k], 'phys_c': {s: str(v) for s, v in phys_c.items()},
                 'A': _config(rng, subst, rxns, phys_k, phys_c), 'B': _config(rng, subst, rxns, phys_k, phys_c)}
+
+    def _as_reactions_case(self, rng):
+        nf, nb = rng.randint(1, 3), rng.randint(1, 2)
+        reac, prod = {}, {}
+        for _ in range(nf):
+            x = rng.choice(['A', 'B'])
+            reac[x] = reac.get(x, 0) + 1
+        for _ in range(nb):
+            x = rng.choice(['C', 'D'])
+            prod[x] = prod.get(x, 0) + 1
+        d = nb - nf
+        def rate(order, p_wrong=0.25):
+            w = rng.choice(WRONGS) if rng.random() < p_wrong else None
+            return {'mag': _rand_mag(rng), 'u': _rate_unit(rng, order, w)}
+        if rng.random() < 0.7:
+            K = {'num': _rand_mag(rng)}
+        else:                                  # unit-carrying K (as Equilibrium's own check wants it written)
+            K = {'mag': _rand_mag(rng), 'u': [['molar', d]] if d else []}
+        r = rng.random()
+        mode = 'kf' if r < 0.45 else 'kb' if r < 0.8 else 'tuple' if r < 0.9 else rng.choice(['none', 'both'])
+        units = rng.random() < 0.85
+        plain_rates = (not units) and rng.random() < 0.6
+        mk = (lambda order: {'num': _rand_mag(rng)}) if plain_rates else rate
+        c = {'kind': 'as_reactions', 'reac': reac, 'prod': prod, 'K': K, 'mode': mode, 'units': units, 'kf': None, 'kb': None}
+        if mode in ('kf', 'both'):
+            c['kf'] = mk(nf)
+        if mode in ('kb', 'both'):
+            c['kb'] = mk(nb)
+        if mode == 'tuple':
+            c['pair'] = [mk(nf), mk(nb)]
+        subst = sorted(set(reac) | set(prod))
+        c['subst'] = subst
+        phys_c = {x: _nice(rng) for x in subst}
+        c['confs'] = []
+        for _ in range(2):
+            c0 = {}
+            for x in subst:
+                ul = _conc_units(rng)
+                c0[x] = {'mag': str(phys_c[x] / _book_u(ul)[0]), 'u': ul}
+            c['confs'].append({'reg': _rand_reg(rng), 'c0': c0, 't': {'mag': _rand_mag(rng), 'u': [[rng.choice(TIME_UNITS), 1]]}})
+        return c
+
+    def _expr_case(self, rng):
+        """a reaction whose rate constant is MassAction(Arrhenius([A, Ea/R])) or MassAction(Eyring([c0, dH/R])): oracle only"""
+        cls = rng.choice(['Arrhenius', 'Eyring'])
+        order = rng.randint(1, 3)
+        reac = {}
+        for _ in range(order):
+            x = rng.choice(['A', 'B'])
+            reac[x] = reac.get(x, 0) + 1
+        subst = sorted(set(reac) | {'C'})
+        A_si, phys_c = _nice(rng), {x: _nice(rng) for x in subst}
+        Ea, T = F(rng.randint(100, 9000)), F(rng.randint(250, 600))
+        confs = []
+        for _ in range(2):
+            # Eyring.__call__ multiplies by conc0**(1-order) itself: its first argument is per time per kelvin (see notes, finding 6)
+            ul = _rate_unit(rng, order) if cls == 'Arrhenius' else [[rng.choice(TIME_UNITS), -1], ['K', -1]]
+            c0 = {}
+            for x in subst:
+                cul = _conc_units(rng)
+                c0[x] = {'mag': str(phys_c[x] / _book_u(cul)[0]), 'u': cul}
+            confs.append({'reg': _rand_reg(rng), 'A': {'mag': str(A_si / _book_u(ul)[0]), 'u': ul}, 'c0': c0,
+                          't': {'mag': _rand_mag(rng), 'u': [[rng.choice(TIME_UNITS), 1]]}})
+        return {'kind': 'ode_expr', 'cls': cls, 'reac': reac, 'prod': {'C': 1}, 'subst': subst, 'A_si': str(A_si),
+                'Ea': str(Ea), 'T': str(T), 'confs': confs}
 
     def _roundtrip_case(self, rng, tier):
         c = self._ode_case(rng, tier, named=True)
@@ -472,7 +574,7 @@ class C10(Property):
         out = []
         for r in c['rxns']:
             out.append({'reac': [[idx[s], n] for s, n in sorted(r['reac'].items())],
-                        'net': [r['prod'].get(s, 0) - r['reac'].get(s, 0) for s in c['subst']]})
+                        'prod': [[idx[s], n] for s, n in sorted(r['prod'].items())]})
         return out
 
     def _unique(self, c):
@@ -511,6 +613,12 @@ class C10(Property):
             return {'op': 'dedim_args', 'reg': _mj_reg(c['reg']), 'args': [_mj(q) for q in c['args']], 'kind': k}
         if k == 'ode_units_arrhenius':
             return {'op': 'ode_units', 'reg': _mj_reg(c['reg']), 'pk': ['temperature'], 'include': True, 'unique': [], 'kind': k}
+        if k == 'as_reactions':
+            if c['mode'] == 'tuple':
+                return None
+            opt = lambda q: None if q is None else _mj(q)
+            return {'op': 'as_reactions', 'K': _mj(c['K']), 'kf': opt(c['kf']), 'kb': opt(c['kb']),
+                    'nf': sum(c['reac'].values()), 'nb': sum(c['prod'].values()), 'units': c['units'], 'kind': k}
         if k == 'validate_term':
             return {'op': 'validate_term', 'k': _mj(c['k']), 'cs': [[_mj(q), n] for q, n in c['cs']], 'kind': k}
         return None
@@ -522,9 +630,19 @@ class C10(Property):
             tag = 'plain' if 'num' in p else 'unitobj' if 'unitobj' in p else ('right' if not c.get('wrong') else 'wrong-' + c['wrong'])
             return 'accept order=%d %s' % (sum(c['reac'].values()), tag)
         if k in ('ode', 'ode_named'):
+            if c.get('spectator'):
+                return k + ' with a spectator substance'
             return '%s orders=%s' % (k, ''.join(str(sum(r['reac'].values())) for r in c['rxns']))
         if k == 'equilibrium':
+            if _eq_quirk_class(c):
+                r = self._impl_case(c)
+                return ('equilibrium float-factor quirk: exact model accepts, real code refuses (float64 ==)' if r == 'ValueError'
+                        else 'equilibrium float-factor class: exact factor = 1000^delta not written in molar, real code %s' % r)
             return 'equilibrium delta=%d' % (sum(c['prod'].values()) - sum(c['reac'].values()))
+        if k == 'as_reactions':
+            return 'as_reactions mode=%s units=%s K=%s' % (c['mode'], c['units'], 'plain' if 'num' in c['K'] else 'quantity')
+        if k == 'ode_expr':
+            return 'ode_expr %s order=%d' % (c['cls'], sum(c['reac'].values()))
         return k
 
     # ------------------------------------------------------------------------------------------------ real code
@@ -568,6 +686,9 @@ class C10(Property):
                     from chempy import Equilibrium
                     Equilibrium(dict(c['reac']), dict(c['prod']), _real(c['param']))
                     return 'ok'
+                if k == 'as_reactions':
+                    fw, bw = self._as_reactions(c)
+                    return json.dumps([list(_read(fw.param)), list(_read(bw.param))])
                 if k == 'args_dims':
                     from chempy import Reaction
                     from chempy.kinetics import rates
@@ -612,6 +733,16 @@ class C10(Property):
                 return exc_name(e)
         return '!unknown-kind'
 
+    def _as_reactions(self, c):
+        from chempy import Equilibrium
+        cu = _cu()
+        opt = lambda q: None if q is None else _real(q)
+        if c['mode'] == 'tuple':
+            eq = Equilibrium(dict(c['reac']), dict(c['prod']), (_real(c['pair'][0]), _real(c['pair'][1])))
+        else:
+            eq = Equilibrium(dict(c['reac']), dict(c['prod']), _real(c['K']), checks=())   # K's own unit check is another case kind
+        return eq.as_reactions(kf=opt(c['kf']), kb=opt(c['kb']), units=cu.default_units if c['units'] else None)
+
     def _run_roundtrip(self, c):
         from chempy.kinetics.ode import get_odesys
         import numpy as np
@@ -646,7 +777,23 @@ class C10(Property):
         k = c['kind']
         errs = ('ValueError', 'KeyError', 'TypeError', 'IndexError', 'AttributeError', 'LookupError')
         if k == 'equilibrium':
-            return mo in ('ok', 'ValueError') and io == self._equilibrium_expected(c, mo)
+            # model answer vs real answer; they may differ ONLY inside the explicit float-factor class, and only in the
+            # direction "exact model accepts, real code refuses" (counted by classify() in the evidence)
+            if io == mo:
+                return mo in ('ok', 'ValueError')
+            return mo == 'ok' and io == 'ValueError' and _eq_quirk_class(c)
+        if k == 'as_reactions':
+            if io in errs or mo in errs:
+                return io == mo
+            try:
+                a, b = json.loads(io), json.loads(mo)
+                for (si, d), o in zip(a, b):
+                    osi, od = _parse_py(o)
+                    if tuple(d) != od or not _close(si, osi):
+                        return False
+                return len(a) == len(b) == 2
+            except Exception:
+                return False
         if k == 'accept':
             return io == mo
         if io in errs or mo in errs or io.startswith('!') or mo.startswith('!'):
@@ -704,16 +851,6 @@ class C10(Property):
             return False
         return False
 
-    def _equilibrium_expected(self, c, model_out):
-        """what the real check returns, given the exact model's verdict: the real code compares float64 scale factors"""
-        if model_out != 'ok' or 'num' in c['param']:
-            return model_out
-        cu = _cu()
-        e = sum(c['prod'].values()) - sum(c['reac'].values())
-        fp = float(_real(c['param']).units.simplified.magnitude)
-        fe = float((cu.default_units.molar ** e).units.simplified.magnitude)
-        return 'ok' if fp == fe else 'ValueError'
-
     def _scales(self, c, conf):
         """per substance: sum of |net| * |rate| in the registry's conc/time unit (the size of the terms that may cancel)"""
         unit = _reg_si(conf['reg'], CONC) / _reg_si(conf['reg'], TIME)
@@ -762,6 +899,10 @@ class C10(Property):
             return 'named rate constant %d has dimension %s (order %d needs %s) but to_arrays accepted it: f=%r' % (
                 c['bad'], _book(c['A']['ks'][c['bad']])[2], sum(c['rxns'][c['bad']]['reac'].values()),
                 rate_dims(sum(c['rxns'][c['bad']]['reac'].values())), f)
+        if k == 'as_reactions':
+            return self._oracle_as_reactions(c)
+        if k == 'ode_expr':
+            return self._oracle_expr(c)
         if k == 'roundtrip':
             return self._oracle_roundtrip(c)
         if k == 'dedim_tcp':
@@ -861,6 +1002,8 @@ class C10(Property):
             try:
                 f, extra = self._run_ode(c, conf, named)
             except Exception as e:
+                if c.get('spectator') and isinstance(e, ValueError) and not isinstance(e, InputMutated):
+                    return None      # a substance in no reaction: get_odesys refuses the system (a rejection, not a result)
                 return 'unit-aware ODE system (config %s) raised %s: %s' % (tag, exc_name(e), str(e)[:120])
             unit = _reg_si(conf['reg'], CONC) / _reg_si(conf['reg'], TIME)
             sc = [s * float(unit) for s in self._scales(c, conf)]
@@ -890,6 +1033,127 @@ class C10(Property):
         for s, v, w, scale in zip(c['subst'], phys[0], phys[1], sc):
             if not _close(v, w, scale, rtol=2 * RTOL):
                 return 'd[%s]/dt differs between two registries / unit choices: %r vs %r mol m-3 s-1' % (s, v, w)
+        return None
+
+    def _oracle_as_reactions(self, c):
+        """reactions obtained from Equilibrium.as_reactions: the hand-computed pair decides acceptance; what comes back must
+        carry the hand-computed constants, pass its own unit check, and give registry-independent rates"""
+        nf, nb = sum(c['reac'].values()), sum(c['prod'].values())
+        d = nb - nf
+        zero = (0,) * 7
+        isq = lambda q: q is not None and 'u' in q
+        # --- by hand: (SI value, dims, is-quantity) of kf and kb, or a refusal
+        expect = None
+        if c['mode'] == 'tuple':
+            hand = [(_si(q), _book(q)[2], isq(q)) for q in c['pair']]
+        elif c['mode'] in ('none', 'both'):
+            expect = 'refused'
+        elif not c['units'] and (isq(c['kf']) or isq(c['kb'])):
+            expect = 'refused'
+        else:
+            c0_si, c0_d, c0_q = (F(1000), CONC, True) if c['units'] else (F(1), zero, False)
+            K_si, K_d, K_q = _si(c['K']), _book(c['K'])[2], isq(c['K'])
+            fac_si, fac_d = K_si * c0_si ** d, _dadd(K_d, tuple(d * x for x in c0_d))
+            if c['mode'] == 'kb':
+                b = c['kb']
+                hand = [(_si(b) * fac_si, _dadd(_book(b)[2], fac_d), isq(b) or K_q or c0_q), (_si(b), _book(b)[2], isq(b))]
+            else:
+                f = c['kf']
+                hand = [(_si(f), _book(f)[2], isq(f)), (_si(f) / fac_si, _dadd(_book(f)[2], fac_d, -1), isq(f) or K_q or c0_q)]
+        if expect is None:
+            ok = all((not q) or dm == rate_dims(o) for (_, dm, q), o in zip(hand, (nf, nb)))
+            expect = 'accepted' if ok else 'refused'
+        try:
+            fw, bw = self._as_reactions(c)
+            got = 'accepted'
+        except (ValueError, TypeError) as e:
+            got = 'refused'
+        if got != expect:
+            return ('Equilibrium.as_reactions(%s): %s, but by hand the pair is %s (orders %d / %d require %s / %s)' % (
+                {k2: c.get(k2) for k2 in ('K', 'kf', 'kb', 'pair', 'units', 'mode')}, got,
+                'refusal' if expect == 'refused' and c['mode'] in ('none', 'both') else
+                [(float(v), dm) for v, dm, _ in hand] if 'hand' in dir() else expect, nf, nb, rate_dims(nf), rate_dims(nb)))
+        if got == 'refused':
+            return None
+        for r, (v, dm, q), o, nm, stoich in zip((fw, bw), hand, (nf, nb), ('forward', 'backward'), (c['reac'], c['prod'])):
+            si, dd = _read(r.param)
+            if dd != dm or not _close(si, v):
+                return '%s constant from as_reactions = %r %s, by hand %r %s' % (nm, si, dd, float(v), dm)
+            if dict(r.reac) != dict(stoich):
+                return '%s reaction from as_reactions has reactants %s, expected %s' % (nm, dict(r.reac), stoich)
+            if q and dd != rate_dims(o):
+                return '%s reaction from as_reactions carries a constant of dimension %s, order %d requires %s' % (nm, dd, o, rate_dims(o))
+            try:
+                chk = bool(r.check_consistent_units())
+            except Exception as e:
+                return '%s reaction from as_reactions: check_consistent_units raised %s' % (nm, exc_name(e))
+            if not chk:
+                return '%s reaction returned by as_reactions fails its own check_consistent_units()' % nm
+        if not all(q for _, _, q in hand):
+            return None          # plain numbers are taken as registry units by construction: nothing unit-aware to compare
+        # --- registry independence of the pair
+        from chempy import ReactionSystem
+        from chempy.kinetics.ode import get_odesys
+        phys = []
+        for conf in c['confs']:
+            cs = {x: _si(conf['c0'][x]) for x in c['subst']}
+            rf, rb = hand[0][0], hand[1][0]
+            for x, n in c['reac'].items():
+                rf *= cs[x] ** n
+            for x, n in c['prod'].items():
+                rb *= cs[x] ** n
+            want = [(c['prod'].get(x, 0) - c['reac'].get(x, 0)) * (rf - rb) for x in c['subst']]
+            scale = float(abs(rf) + abs(rb)) * max(max(c['reac'].values()), max(c['prod'].values()))
+            try:
+                odesys, extra = get_odesys(ReactionSystem([fw, bw], ' '.join(c['subst'])), unit_registry=_real_reg(conf['reg']))
+                x_, y_, p_ = odesys.to_arrays(_real(conf['t']), {x: _real(conf['c0'][x]) for x in c['subst']}, ())
+                f = [float(v) for v in odesys.f_cb(x_[-1], y_, p_).ravel()[:len(c['subst'])]]
+            except Exception as e:
+                return 'unit-aware system of the as_reactions pair raised %s: %s' % (exc_name(e), str(e)[:120])
+            unit = float(_reg_si(conf['reg'], CONC) / _reg_si(conf['reg'], TIME))
+            ph = [v * unit for v in f]
+            phys.append(ph)
+            for x, v, w in zip(c['subst'], ph, want):
+                if not _close(v, w, scale):
+                    return ('as_reactions pair in registry %s: d[%s]/dt = %r mol m-3 s-1, by hand %r' % (conf['reg'], x, v, float(w)))
+        return None
+
+    def _oracle_expr(self, c):
+        """Arrhenius / Eyring rate constants (no theorem: clauses_without_theorem): two registries / unit choices vs the hand formula"""
+        from chempy import Reaction, ReactionSystem
+        from chempy.kinetics import rates
+        from chempy.kinetics.ode import get_odesys
+        u = _cu().default_units
+        order = sum(c['reac'].values())
+        A, Ea, T = float(F(c['A_si'])), float(F(c['Ea'])), float(F(c['T']))
+        k = A * math.exp(-Ea / T) if c['cls'] == 'Arrhenius' else A * T * math.exp(-Ea / T) * 1000.0 ** (1 - order)
+        for conf in c['confs']:
+            cs = {x: float(_si(conf['c0'][x])) for x in c['subst']}
+            rate = k
+            for x, n in c['reac'].items():
+                rate *= cs[x] ** n
+            want = [(c['prod'].get(x, 0) - c['reac'].get(x, 0)) * rate for x in c['subst']]
+            try:
+                expr = getattr(rates, c['cls'])([_real(conf['A']), Ea * u.K])
+                rxn = Reaction(dict(c['reac']), dict(c['prod']), rates.MassAction(expr))
+                odesys, extra = get_odesys(ReactionSystem([rxn], ' '.join(c['subst'])), unit_registry=_real_reg(conf['reg']))
+                ins = [_real(conf['t']), {x: _real(conf['c0'][x]) for x in c['subst']}, {'temperature': T * u.K}]
+                before = _snap(ins)
+                x_, y_, p_ = odesys.to_arrays(*ins)
+                f = [float(v) for v in odesys.f_cb(x_[-1], y_, p_).ravel()[:len(c['subst'])]]
+                _unchanged('get_odesys(...).to_arrays / f_cb', before, ins)
+            except Exception as e:
+                return '%s system raised %s: %s' % (c['cls'], exc_name(e), str(e)[:160])
+            if list(extra['param_keys']) != ['temperature']:
+                return '%s system: param_keys = %r' % (c['cls'], extra['param_keys'])
+            tsi, tdim = _read(extra['p_units'][0])
+            if tdim != _d(TH=1) or not _close(tsi, _reg_si(conf['reg'], _d(TH=1))):
+                return '%s system: reported temperature unit %r' % (c['cls'], extra['p_units'][0])
+            unit = float(_reg_si(conf['reg'], CONC) / _reg_si(conf['reg'], TIME))
+            for x, v, w in zip(c['subst'], f, want):
+                if not _close(v * unit, w, abs(rate), rtol=1e-9):
+                    return ('%s rate constant, order %d, registry %s: d[%s]/dt = %r mol m-3 s-1, by hand %r (A = %s)' % (
+                        c['cls'], order, conf['reg'], x, v * unit, w, conf['A']))
         return None
 
     def _oracle_roundtrip(self, c):
